@@ -843,3 +843,212 @@ func (p *Prog) lookupValueIndex(lk *ssa.Call, recv ssa.Value) int {
 	}
 	return -1
 }
+
+// N4 identity predicate: every method of ValueID that compares the value id with a SlabID and returns a bool is
+// true exactly when both components (address, index) are equal. The function is evaluated on the four truth
+// assignments of its two component comparisons; which half of the value id is compared with which component is
+// checked from the slice bounds.
+func ruleN4(p *Prog, r *Report) {
+	const R = "N4"
+	n := 0
+	for _, f := range p.TopFuncs() {
+		if recvName(f) != "ValueID" || len(f.Params) != 2 || f.Signature.Results().Len() != 1 {
+			continue
+		}
+		if typeName(f.Params[1].Type()) != "SlabID" {
+			continue
+		}
+		if b, ok := f.Signature.Results().At(0).Type().Underlying().(*types.Basic); !ok || b.Kind() != types.Bool {
+			continue
+		}
+		n++
+		cons := "identity-predicate:" + p.Name(f)
+		sid := f.Params[1]
+		vid := f.Params[0]
+		addrLen, ok := p.constVal("SlabAddressLength")
+		if !ok {
+			r.Unk(R, cons, p.Pos(f.Pos()), "SlabAddressLength not found")
+			continue
+		}
+		// atoms: comparisons of one component
+		type atom struct{ comp string }
+		atoms := map[ssa.Value]string{}
+		problem := ""
+		rootsAt := func(v ssa.Value, prm *ssa.Parameter) bool {
+			// v is (a slice of) the spilled copy of prm, possibly through a field
+			for depth := 0; depth < 6; depth++ {
+				switch x := v.(type) {
+				case *ssa.Slice:
+					v = x.X
+				case *ssa.FieldAddr:
+					v = x.X
+				case *ssa.Alloc:
+					return canon(singleStoreTo(x)) == ssa.Value(prm) || singleStoreTo(x) == ssa.Value(prm)
+				default:
+					return canon(v) == ssa.Value(prm)
+				}
+			}
+			return false
+		}
+		eachInstr(f, func(in ssa.Instruction) {
+			c, ok := in.(*ssa.Call)
+			if !ok {
+				return
+			}
+			g := c.Call.StaticCallee()
+			if g == nil || g.Pkg == nil || g.Pkg.Pkg.Path() != "bytes" || g.Name() != "Equal" || len(c.Call.Args) != 2 {
+				return
+			}
+			var sidArg, vidArg ssa.Value
+			for _, a := range c.Call.Args {
+				if rootsAt(a, sid) {
+					sidArg = a
+				}
+				if rootsAt(a, vid) {
+					vidArg = a
+				}
+			}
+			if sidArg == nil || vidArg == nil {
+				problem = "a comparison does not relate the value id with the slab id"
+				return
+			}
+			comp := ""
+			if sl, ok := sidArg.(*ssa.Slice); ok {
+				if fa, ok := sl.X.(*ssa.FieldAddr); ok {
+					_, comp = structFieldName(fa.X.Type(), fa.Field)
+				}
+			}
+			vs, ok := vidArg.(*ssa.Slice)
+			if comp == "" || !ok {
+				problem = "component comparison of an unexpected shape"
+				return
+			}
+			lo, hi := int64(0), int64(-1)
+			if vs.Low != nil {
+				if k, ok := cInt(vs.Low); ok {
+					lo = k
+				} else {
+					problem = "value id half with a non-constant bound"
+				}
+			}
+			if vs.High != nil {
+				if k, ok := cInt(vs.High); ok {
+					hi = k
+				} else {
+					problem = "value id half with a non-constant bound"
+				}
+			}
+			switch comp {
+			case "address":
+				if lo != 0 || hi != addrLen {
+					problem = "the address is compared with the wrong part of the value id"
+				}
+			case "index":
+				if lo != addrLen || hi != -1 {
+					problem = "the index is compared with the wrong part of the value id"
+				}
+			default:
+				problem = "unknown slab id component " + comp
+			}
+			atoms[c] = comp
+		})
+		if problem != "" {
+			r.Bad(R, cons, p.Pos(f.Pos()), problem)
+			continue
+		}
+		bad := ""
+		for _, asg := range [][2]bool{{false, false}, {false, true}, {true, false}, {true, true}} {
+			val := func(v ssa.Value) (bool, bool) { return false, false }
+			var eval func(v ssa.Value, from *ssa.BasicBlock) (bool, bool)
+			eval = func(v ssa.Value, from *ssa.BasicBlock) (bool, bool) {
+				if comp, ok := atoms[v]; ok {
+					if comp == "address" {
+						return asg[0], true
+					}
+					return asg[1], true
+				}
+				switch x := v.(type) {
+				case *ssa.Const:
+					if x.Value != nil {
+						return x.Value.String() == "true", true
+					}
+				case *ssa.UnOp:
+					if x.Op == token.NOT {
+						b, ok := eval(x.X, from)
+						return !b, ok
+					}
+				case *ssa.Phi:
+					for i, pr := range x.Block().Preds {
+						if pr == from {
+							return eval(x.Edges[i], from)
+						}
+					}
+				case *ssa.BinOp:
+					a, ok1 := eval(x.X, from)
+					b, ok2 := eval(x.Y, from)
+					if ok1 && ok2 {
+						switch x.Op {
+						case token.AND, token.LAND:
+							return a && b, true
+						case token.OR, token.LOR:
+							return a || b, true
+						case token.EQL:
+							return a == b, true
+						case token.NEQ:
+							return a != b, true
+						}
+					}
+				}
+				return false, false
+			}
+			_ = val
+			b := f.Blocks[0]
+			var prev *ssa.BasicBlock
+			res, decided := false, false
+			// phi edges need the predecessor: track it while walking
+			phiFrom := map[*ssa.BasicBlock]*ssa.BasicBlock{}
+			for steps := 0; steps < 50; steps++ {
+				phiFrom[b] = prev
+				last := b.Instrs[len(b.Instrs)-1]
+				switch x := last.(type) {
+				case *ssa.If:
+					c, ok := eval(x.Cond, prev)
+					if !ok {
+						steps = 100
+						break
+					}
+					prev = b
+					if c {
+						b = b.Succs[0]
+					} else {
+						b = b.Succs[1]
+					}
+					continue
+				case *ssa.Jump:
+					prev = b
+					b = b.Succs[0]
+					continue
+				case *ssa.Return:
+					res, decided = eval(canonRet(x.Results[0]), prev)
+				}
+				break
+			}
+			if !decided {
+				bad = "the predicate is outside the evaluator's vocabulary"
+				break
+			}
+			if res != (asg[0] && asg[1]) {
+				bad = fmt.Sprintf("with address equal=%v and index equal=%v the predicate answers %v", asg[0], asg[1], res)
+				break
+			}
+		}
+		if len(atoms) != 2 && bad == "" {
+			bad = fmt.Sprintf("%d component comparisons found, expected address and index", len(atoms))
+		}
+		r.Decide(bad == "", R, cons, p.Pos(f.Pos()), "true exactly when address and index both match", "the identity test between a container's value id and a slab id is wrong: "+bad+"; a stale handle could be taken for the element that now occupies its slot")
+	}
+	r.Floor(R, "value id / slab id identity predicates", 1, n)
+}
+
+// canonRet: look through the defer/recover spill of a return operand.
+func canonRet(v ssa.Value) ssa.Value { return stripTrivial(v) }
